@@ -41,6 +41,9 @@ def cases(tier, seed):
     for shape in ([10, 5], [37, 3], [1, 64], [128, 1]):
         for pattern in range(4):
             yield dict(kind='large', shape=shape, pattern=pattern)
+    # hundreds of thousands of bins, sparse observations
+    yield dict(kind='large', shape=[40000, 6], pattern=4)
+    yield dict(kind='large', shape=[300, 20], pattern=4)
     # simulated entries under every draw tuple (N_obs <= 2)
     rl = [list(r) for r in itertools.product([0.0, 0.5, 2.0, 1e-12], repeat=4) if any(x > 0 for x in r)]
     for chunk in space.chunks(rl, 8):
@@ -53,8 +56,11 @@ def cases(tier, seed):
             yield dict(kind='pairs', shape=list(shape), rates=rlist, counts_alpha=COUNTS)
 
 
+_RTOL = [1e-10]
+
+
 def tol(terms_abs):
-    return 1e-10 * terms_abs + 1e-12
+    return _RTOL[0] * terms_abs + 1e-12
 
 
 def ref_value(rates, counts, total):
@@ -116,6 +122,9 @@ def judge_pair(shape, rates, counts, cat, fc, reg_info, failures, hsh, sims_draw
             draw_sets = [[]]
         elif sims_draws:
             draw_sets = sims_draws(vr, nobs)
+        elif len(vr) > 5000:
+            mids = [(k + 0.5) / 64 for k in range(64)]        # any numbers in [0,1): the simulated array is observed, not predicted
+            draw_sets = [[mids[i % len(mids)] for i in range(nobs)]]
         else:
             mids = rs.midpoints(vr)
             draw_sets = [[mids[i % len(mids)] for i in range(nobs)]]
@@ -159,14 +168,41 @@ def run_case(case):
         # rates and counts from closed-form patterns (no randomness): rate_i spans 1e-12..1e3, counts i mod m with spikes
         n = nc * nm
         pat = case['pattern']
-        rates = [[1e-3 * (1 + (i * 7) % 13), 10.0 ** (-12 + (i % 16)), 0.5 + (i % 5), (0.0 if i % 11 == 3 else 2.0 + i)][pat] for i in range(n)]
-        counts = [[(i % 3) + (200 if i == 1 else 0), (7 if i % 10 == 0 else 0) + (500 if i == n - 1 else 0), (i % 7) + (100 if i == n // 2 else 0), (0 if rates[i] == 0 else (i % 2) * 6)][pat] for i in range(n)]
+        rates = [[1e-3 * (1 + (i * 7) % 13), 10.0 ** (-12 + (i % 16)), 0.5 + (i % 5), (0.0 if i % 11 == 3 else 2.0 + i), 1e-3 * (1 + (i * 7) % 13)][pat] for i in range(n)]
+        counts = [[(i % 3) + (200 if i == 1 else 0), (7 if i % 10 == 0 else 0) + (500 if i == n - 1 else 0), (i % 7) + (100 if i == n // 2 else 0), (0 if rates[i] == 0 else (i % 2) * 6),
+                   (1 if i % 997 == 0 else 0) + (3 if i == n // 2 else 0)][pat] for i in range(n)]
         if pat == 3:
             counts[3 if n > 3 else 0] = 0
         fc = fixtures.gridded_forecast(numpy.array(rates, dtype=float).reshape(nc, nm), reg, mags)
         cat = fixtures.catalog(fixtures.events_from_counts(numpy.array(counts).reshape(nc, nm), origins, mags), region=reg)
         evals += judge_pair(shape, rates, counts, cat, fc, None, failures, hsh)
-        if nc > 1 and nm > 1:
+        # the forecast reaches the same rates through scale(<ndarray>): per-cell factors (n_cells, 1) and a full-shape array
+        a_cell = numpy.array([[2.0, 0.5, 4.0, 1.0][c % 4] for c in range(nc)]).reshape(nc, 1)
+        a_full = numpy.array([[2.0, 0.25, 1.0, 8.0, 0.5][i % 5] for i in range(n)]).reshape(nc, nm)
+        full = numpy.array(rates, dtype=float).reshape(nc, nm)
+        for tag, a in (('per-cell', a_cell), ('full-shape', a_full)):
+            base = full / a                       # exact: the factors are powers of two
+            if not numpy.array_equal(base * a, full):
+                continue                          # (only if a rate is subnormal)
+            before = len(failures)
+            fsc = fixtures.gridded_forecast(base, reg, mags)
+            fsc.scale(a)
+            evals += judge_pair(shape, rates, counts, cat, fsc, None, failures, hsh)
+            for f in failures[before:]:
+                f['signature'] += f',scaled-by-{tag}-array'
+        # the same rates stored in single precision: statistics must agree with the double-precision definition evaluated on the
+        # stored (float32) rates to a small multiple of the float32 round-off of the terms
+        r32 = [float(x) for x in numpy.array(rates, dtype=numpy.float32)]
+        if all(x == 0 or x > 1e-30 for x in r32):
+            before = len(failures)
+            _RTOL[0] = 1e-5
+            try:
+                evals += judge_pair(shape, r32, counts, cat, fixtures.gridded_forecast(numpy.array(rates, dtype=numpy.float32).reshape(nc, nm), reg, mags), None, failures, hsh)
+            finally:
+                _RTOL[0] = 1e-10
+            for f in failures[before:]:
+                f['signature'] += ',float32-rates'
+        if nc > 1 and nm > 1 and n <= 20000:
             # the same rates held in column-major memory and as a transposed view
             for lay in ('F', 'T'):
                 d = numpy.array(rates, dtype=float).reshape(nc, nm)
